@@ -26,9 +26,10 @@ def blockSpec (capsAt : Nat → Option Caps) (names : List (Bytes × Nat)) (hay 
 
 /-- **The replacement buffer of a block.** For every sane matcher, block `[rs, re)` and template (reference grammar
 guard `braceOk`, as in C19), the buffer of `replace_all` is the replace-all of the block over the matches the
-printer keeps, and one expansion offset is recorded per kept match. No guard on the matches: since the repair of
-F18 (55c3d7e) a kept match that reaches beyond the block — possible through the look-ahead cut — is the last one
-replaced and the copy stops at the end of the block. -/
+printer replaces (`kept`: the iterator's matches up to the first one that starts beyond the block or — since
+2e6bd1f — reaches beyond it), and one expansion offset is recorded per replaced match. No guard on the matches: a
+match reaching beyond the block (possible through the look-ahead cut) is left alone and the rest of the block is
+copied verbatim. -/
 theorem C19_multi_buffer (sc : SCfg) (capsAtOf : Bytes → Nat → Option Caps) (names : List (Bytes × Nat))
     (buf : Bytes) (rs re : Nat) (tmpl : Bytes) (hay : Bytes) (hhay : hay = cutHaystack sc buf re)
     (hs : Sane (capsAtOf hay) hay.length)
@@ -119,7 +120,14 @@ theorem C19_multi_unreplaced (sc : SCfg) (c : StdCfg) (capsAtOf : Bytes → Nat 
   unfold printReplacedBlock
   simp [sunkOf, this]
 
-/-! ## A kept match may reach beyond the block (look-ahead cut): regression of F18 -/
+/-! ## A re-found match may reach beyond the block (look-ahead cut): regressions of F18 and of 2e6bd1f -/
+
+/-- **Nothing from beyond the block**: every match that is replaced lies inside the block, so the captures its
+expansion is built from (`$0`, `$n`) are taken from the reported lines only; all other printed bytes are copied
+from `[rs, min |hay| re)` (`C19_multi_buffer`). -/
+theorem replaced_matches_inside_block (capsAt : Nat → Option Caps) (hay : Bytes) (rs re : Nat) (atEnd : Bool) :
+    ∀ c ∈ kept capsAt hay rs re atEnd, (sp c).e ≤ re :=
+  kept_inside capsAt hay rs re atEnd
 
 /-- a matcher whose match from the start of the block `a\\n` of `a\\nb\\n` ends in the next line — what the printer
 sees when the look-ahead cut lets `\\z` match where the searcher saw no match (`(?s)a.{129}\\z|a`) -/
@@ -142,15 +150,16 @@ theorem beyondBlockMatcher_sane (hay : Bytes) (h : 3 ≤ hay.length) : Sane (bey
       subst this; rfl
     · simp at hc
 
-/-- Regression witness for F18 (repaired by 55c3d7e; before it the code panicked here, `rg -U -r X
-'(?s)a.{129}\\z|a'` on `a\\n` + 128×`b` + `\\n` + 300×`c` + `\\n`): the kept match `[0,3)` ends beyond the block `[0,2)`;
-the buffer is the expansion alone and the block prints as `X\\n` — all hypotheses of `C19_multi_buffer` hold. -/
+/-- Regression witness (F18: before 55c3d7e the code panicked here; before 2e6bd1f it replaced the match and `$0`
+copied `a\\nb` from beyond the block): the match `[0,3)` reaches beyond the block `[0,2)`, so nothing is replaced and
+the block is printed as it is, `a\\n`. -/
 example :
     Sane (beyondBlockMatcher [97, 10, 98, 10]) 4 ∧
-    (replaceAllMulti { multiLine := true } beyondBlockMatcher [] [97, 10, 98, 10] 0 2 [88]).dst = [88] ∧
-    printReplacedBlock { multiLine := true } {} beyondBlockMatcher [] [97, 10, 98, 10] 0 2 0 none [88] = [88, 10] := by
+    kept (beyondBlockMatcher [97, 10, 98, 10]) [97, 10, 98, 10] 0 2 false = [] ∧
+    (replaceAllMulti { multiLine := true } beyondBlockMatcher [] [97, 10, 98, 10] 0 2 [88]).dst = [97, 10] ∧
+    printReplacedBlock { multiLine := true } {} beyondBlockMatcher [] [97, 10, 98, 10] 0 2 0 none [88] = [97, 10] := by
   have hI : ∀ env, interpolate env [88] = [88] := fun env => Props.C19.interpolate_no_dollar env [88] (by decide)
-  refine ⟨beyondBlockMatcher_sane _ (by decide), ?_, ?_⟩
+  refine ⟨beyondBlockMatcher_sane _ (by decide), by decide, ?_, ?_⟩
   · unfold replaceAllMulti replaceWithCapturesInContext
     simp only [hI]
     decide
